@@ -319,8 +319,9 @@ func region(seed []byte, off int) string {
 }
 
 // lineMutations enumerates structural line-level mutations of the header part.
+// The mutated bytes are produced lazily.
 type lineMut struct {
-	out  []byte
+	out  func() []byte
 	kind string
 }
 
@@ -337,34 +338,42 @@ func lineMutations(seed []byte) []lineMut {
 	}
 	var res []lineMut
 	for i, ln := range lines {
-		// delete line
-		del := append(append([]string{}, lines[:i]...), lines[i+1:]...)
-		res = append(res, lineMut{join(del), "line-delete"})
-		// duplicate line
-		dup := append(append(append([]string{}, lines[:i+1]...), ln), lines[i+1:]...)
-		res = append(res, lineMut{join(dup), "line-duplicate"})
-		// indent / dedent
-		ind := append([]string{}, lines...)
-		ind[i] = "  " + ln
-		res = append(res, lineMut{join(ind), "line-indent"})
+		i, ln := i, ln
+		res = append(res, lineMut{func() []byte {
+			return join(append(append([]string{}, lines[:i]...), lines[i+1:]...))
+		}, "line-delete"})
+		res = append(res, lineMut{func() []byte {
+			return join(append(append(append([]string{}, lines[:i+1]...), ln), lines[i+1:]...))
+		}, "line-duplicate"})
+		res = append(res, lineMut{func() []byte {
+			ind := append([]string{}, lines...)
+			ind[i] = "  " + ln
+			return join(ind)
+		}, "line-indent"})
 		if strings.HasPrefix(ln, "  ") {
-			ded := append([]string{}, lines...)
-			ded[i] = ln[2:]
-			res = append(res, lineMut{join(ded), "line-dedent"})
+			res = append(res, lineMut{func() []byte {
+				ded := append([]string{}, lines...)
+				ded[i] = ln[2:]
+				return join(ded)
+			}, "line-dedent"})
 		}
-		// swap with next
 		if i+1 < len(lines) {
-			sw := append([]string{}, lines...)
-			sw[i], sw[i+1] = sw[i+1], sw[i]
-			res = append(res, lineMut{join(sw), "line-swap"})
+			res = append(res, lineMut{func() []byte {
+				sw := append([]string{}, lines...)
+				sw[i], sw[i+1] = sw[i+1], sw[i]
+				return join(sw)
+			}, "line-swap"})
 		}
 		// replace simple value with dictionary tokens
 		if c := strings.Index(ln, ": "); c >= 0 {
 			name := strings.TrimLeft(ln[:c], " -")
 			for _, tok := range valueTokens {
-				rv := append([]string{}, lines...)
-				rv[i] = ln[:c+2] + tok
-				res = append(res, lineMut{join(rv), "value(" + name + "=" + tokClass(tok) + ")"})
+				tok := tok
+				res = append(res, lineMut{func() []byte {
+					rv := append([]string{}, lines...)
+					rv[i] = ln[:c+2] + tok
+					return join(rv)
+				}, "value(" + name + "=" + tokClass(tok) + ")"})
 			}
 		}
 	}
